@@ -18,7 +18,7 @@ import torch
 
 from .. import bmachine as bm
 from .. import seams, stubs
-from ..core import EventLog, Streams, Violation, fx, xf, tdig
+from ..core import SkipCase, EventLog, Streams, Violation, fx, xf, tdig
 
 PROP = "C12"
 RUNS = {"quick": 1500, "thorough": 60000}
@@ -194,7 +194,7 @@ def run_case(case, keep_log=False):
         tsv = torch.tensor([t0, T], dtype=tdt)
         t0, T = float(tsv[0]), float(tsv[1])
         if not t0 < T:
-            raise Violation("harness_bad_case", None, None)
+            raise SkipCase()
         ys0, trace0 = R.run([t0, T], False, "V0")
         B, d = R.spec["batch"], R.spec["d"]
         # the trace must be the LoopModel grid
@@ -287,6 +287,8 @@ def run_case(case, keep_log=False):
                 probes["several_outputs_in_one_step"] += 1
             pattern.append("".join(pat))
         states = [f"{case['solver']['method']}/{case['solver']['sde_type']}/{case['sde']['noise_type']}/{n}/" + "|".join(pattern)]
+    except SkipCase:
+        probes["skipped_degenerate_case"] = 1
     except Violation as v:
         violation = v.to_json()
     stats = {"faults": R.fired, "probes": probes,
